@@ -273,6 +273,11 @@ func run(c Scenario) evid.Verdict {
 					r.tkt, r.key, r.ok = cl.GetCachedTicket(c.Spec.SPN(op.SPN))
 				case "login":
 					r.err = cl.Login()
+				case "logins":
+					// back-to-back logins: each replaces the TGT and its session key while other goroutines use them
+					for k := 0; k < op.SPN && r.err == nil; k++ {
+						r.err = cl.Login()
+					}
 				case "affirm":
 					r.err = cl.AffirmLogin()
 				case "destroy":
@@ -451,6 +456,29 @@ func drawCase(t *rapid.T, long bool) Case {
 	return c
 }
 
+// drawStorm draws a scenario in which one goroutine logs in again and again while the others request tickets for
+// services not asked for before, so that reads of (TGT, session key) keep meeting replacements of the pair.
+func drawStorm(t *rapid.T) Case {
+	s := c10.Spec{Seed: rapid.Uint64Range(1, 1<<40).Draw(t, "seed"), Cred: rapid.SampledFrom([]string{"password", "keytab"}).Draw(t, "cred"),
+		ETypes:  []int32{rapid.SampledFrom([]int32{ref.AES128SHA1, ref.AES256SHA1, ref.RC4, ref.AES128SHA2}).Draw(t, "etype")},
+		Preauth: rapid.SampledFrom([]string{"none", "required"}).Draw(t, "preauth"), NoAddr: true, KDCs: rapid.IntRange(1, 2).Draw(t, "kdcs"), Via: "referral"}
+	c := Case{Scenario: Scenario{Spec: s}}
+	ng := rapid.SampledFrom([]int{3, 4, 8}).Draw(t, "goroutines")
+	for g := 0; g < ng; g++ {
+		var prog []Op
+		if g == 0 {
+			prog = append(prog, Op{K: "logins", SPN: rapid.IntRange(20, 40).Draw(t, "logins")})
+		} else {
+			for i, n := 0, rapid.IntRange(2, 4).Draw(t, "bursts"); i < n; i++ {
+				prog = append(prog, Op{K: "burst", SPN: rapid.IntRange(0, c10.ExtraSPNs-1).Draw(t, "burstbase")})
+			}
+		}
+		c.Progs = append(c.Progs, prog)
+		c.StartUs = append(c.StartUs, rapid.SampledFrom([]int{0, 0, 50, 500}).Draw(t, "startoffset"))
+	}
+	return c
+}
+
 func TestProp(t *testing.T) {
 	r := evid.Start(t, "C11", "exploration")
 	evid.Reg(r, "scenario", Eval)
@@ -468,7 +496,7 @@ func TestProp(t *testing.T) {
 	}
 	r.Regress()
 	r.Assume("free-running execution under the Go race detector samples schedules; it cannot show the absence of races; a race is attributed to the scenario during which the detector reported it and keyed by the innermost gokrb5 functions of its two stacks; the detector reports each racing pair once per process")
-	r.Rule("scenario: 2-16 goroutines sharing one client and one Config, each running 1-5 operations from {GetServiceTicket (SPN pool 1-4), GetCachedTicket, Login, AffirmLogin, GetKDCs, ResolveRealm, Diagnostics, Print, Destroy (at most one, last)} with start offsets 0-5 ms, 1-3 configured KDCs, TGT lifetimes of 1.3-2.3 s so that background renewals overlap; oracle: no data race in gokrb5, every returned (ticket,key) pair issued together for the requested SPN, Config unchanged, GetKDCs a permutation of the configured servers, no deadlock (60 s watchdog); non-trivial = >= 2 goroutines measurably overlapped inside gokrb5 calls")
+	r.Rule("scenario: 2-16 goroutines sharing one client and one Config, each running 1-5 operations from {GetServiceTicket (SPN pool 1-4), GetCachedTicket, Login, AffirmLogin, GetKDCs, ResolveRealm, Diagnostics, Print, Destroy (at most one, last)} with start offsets 0-5 ms (plus login storms: one goroutine logging in 20-40 times back to back while 2-7 others request tickets for 20-40 services not asked for before), 1-3 configured KDCs, TGT lifetimes of 1.3-2.3 s so that background renewals overlap; oracle: no data race in gokrb5, every returned (ticket,key) pair issued together for the requested SPN, Config unchanged, GetKDCs a permutation of the configured servers, no deadlock (60 s watchdog); non-trivial = >= 2 goroutines measurably overlapped inside gokrb5 calls")
 	var cases []Case
 	r.Rapid("scenario-gen", r.N(220, 6000), func(t *rapid.T) { cases = append(cases, drawCase(t, false)) })
 	// long scenarios (waits of up to a second, renewable 1.3-2.3 s TGTs so that background renewals happen while the
@@ -482,6 +510,9 @@ func TestProp(t *testing.T) {
 		}
 		cases = append(cases, b)
 	}
+	// login storms: the (TGT, session key) pair is replaced dozens of times while other goroutines read it
+	storm := map[int]bool{}
+	r.Rapid("storm-gen", r.N(10, 300), func(t *rapid.T) { storm[len(cases)] = true; cases = append(cases, drawStorm(t)) })
 	// scenarios run one at a time so that a race report can be attributed to its scenario
 	for i, c := range cases {
 		ng := len(c.Progs)
@@ -494,6 +525,9 @@ func TestProp(t *testing.T) {
 			nt = fmt.Sprintf("%d|%+v", i, c)
 		}
 		kind := "short"
+		if storm[i] {
+			kind = "login-storm"
+		}
 		if len(c.Also) > 0 {
 			kind = "long-batch-of-12"
 			for range c.Also {
